@@ -12,6 +12,8 @@ power delivered for the discretely conservative class.
 """
 import itertools
 
+import math
+
 import numpy as np
 
 from ..run import new_result, violation, site_of
@@ -32,6 +34,17 @@ def types(names, gapfrac):
     if 'A2' in names:
         # the same bundle with a pin pitch 0.5 % larger: gap meshes that are nearly, not exactly, equal
         t['A2'] = S.design(3, pd=1.206, oftf=OFTF, clearance='mid')
+    if 'E' in names:
+        # five rings of pins half the size of A's at (half A's pitch) x (1 + 2e-5): a duct mesh that is nearly, not
+        # exactly, commensurate with A's - cell boundaries 0.3 ... 0.8 um apart
+        a_ = S.design(3, pd=1.20, oftf=OFTF, clearance='mid')
+        t['E'] = dict(a_, num_rings=5, pin_pitch=round(0.5 * a_['pin_pitch'] * (1.0 + 2.0e-5), 12),
+                      pin_diameter=round(0.5 * a_['pin_diameter'], 9), clad_thickness=round(0.5 * a_['clad_thickness'], 9),
+                      wire_diameter=round(0.5 * a_['wire_diameter'], 9))
+        e_ = t['E']
+        # a thicker wall takes up the room the smaller pins leave (same outer flat-to-flat)
+        e_['duct_ftf'] = [round(4.0 * math.sqrt(3.0) * e_['pin_pitch'] + e_['pin_diameter'] + 2.0 * e_['wire_diameter']
+                                + 0.12 * e_['pin_pitch'], 6), a_['duct_ftf'][-1]]
     if 'B' in names:
         t['B'] = S.design(2, pd=1.30, oftf=OFTF, clearance='loose')
     if 'C' in names:
@@ -59,7 +72,7 @@ def types(names, gapfrac):
     return t
 
 
-RINGS = {'A': 3, 'A2': 3, 'B': 2, 'C': 4, 'U': 3, 'D': 3, 'Ds': 3, 'S': 3, 'S5': 3}
+RINGS = {'A': 3, 'A2': 3, 'E': 5, 'B': 2, 'C': 4, 'U': 3, 'D': 3, 'Ds': 3, 'S': 3, 'S5': 3}
 NDUCT = {'D': 2, 'Ds': 2}
 
 
@@ -341,6 +354,11 @@ def cases(tier):
         out.append({'layout': ['A'] * 7 + ['B', None] * 6, 'gapfrac': 0.05, 'gap_model': 'flow', 'max_steps': 20})
         for lay in (['A', 'A2', 'A', 'A2', 'A', 'A', 'A2'], ['A2', 'A', 'A2', None, 'A', 'A2', 'A']):
             out.append({'layout': lay, 'gapfrac': 0.05, 'gap_model': 'flow', 'max_steps': 40})
+        for lay in (['A', 'E', 'A', 'E', 'A', 'A', 'E'], ['E', 'A', 'E', None, 'A', 'E', 'A']):
+            out.append({'layout': lay, 'gapfrac': 0.05, 'gap_model': 'flow', 'max_steps': 40})
+        # a requested step far below every limit: 1600 planes (the first 60 are swept)
+        for lay in (['A', 'B', 'A', None, 'U', 'A', 'B'], ['D', 'A', None, None, None, None, None]):
+            out.append({'layout': lay, 'gapfrac': 0.05, 'gap_model': 'flow', 'max_steps': 60, 'dz': 1.0e-4})
         # a very small gap flow (still the flowing-gap model)
         for lay in (['A', 'B', 'A', None, None, None, None], ['D', None, 'A', 'U', None, None, None]):
             out.append({'layout': lay, 'gapfrac': 0.0008, 'gap_model': 'flow', 'max_steps': 30})
@@ -361,6 +379,8 @@ def cases(tier):
         for lay in layouts7(['A', 'B', 'U', 'D', 'S'], 2, 2):
             out.append({'layout': lay, 'gapfrac': 0.05, 'gap_model': 'flow', 'max_steps': 40, 'ftf': 'outer-first'})
         for lay in layouts7(['A', 'A2'], 2, 3):
+            out.append({'layout': lay, 'gapfrac': 0.05, 'gap_model': 'flow', 'max_steps': 40})
+        for lay in layouts7(['A', 'E'], 2, 2):
             out.append({'layout': lay, 'gapfrac': 0.05, 'gap_model': 'flow', 'max_steps': 40})
         for lay in layouts7(['A', 'B', 'D'], 2, 2):
             out.append({'layout': lay, 'gapfrac': 0.0008, 'gap_model': 'flow', 'max_steps': 30})
